@@ -6,6 +6,7 @@ mod rng;
 mod httpstore;
 mod store;
 mod timeunit;
+mod udpcodec;
 
 fn arg<T: std::str::FromStr>(args: &[String], name: &str, default: T) -> T {
     args.iter()
@@ -38,6 +39,7 @@ fn main() {
     let mut out = std::io::BufWriter::new(out.lock());
     match family {
         "udpstore" => store::run(&mut out, seed, cases, maxops, &replay, false),
+        "udpcodec" => udpcodec::run(&mut out, seed, cases, &replay),
         "timeunit" => timeunit::run(&mut out, seed, cases),
         "httpstore" => store::run(&mut out, seed, cases, maxops, &replay, true),
         _ => {
